@@ -1024,3 +1024,16 @@ PROPS["C04"]["assumptions"] = list(PROPS["C04"]["assumptions"]) + [
 PROPS["C14"]["rule"] += (" For one oracle case in eight the real CLI is run without and with `--no-dynamic-binding` in fresh temp dirs; exit status, the "
                          "set of files written, .ui bytes and header bytes must equal the in-process generate and reject results respectively.")
 PROPS["C20"]["level_note"] += ("; the per-row/per-column attributes of the layout holding the faulted object are treated as that object's own attached values")
+
+# ---- round-4 text deltas (semantics): string order, overload sets
+PROPS["C01"]["level_note"] += (" Folded and run-time comparisons of string constants/values whose UTF-16 code unit order differs from code point order "
+    "(astral vs U+E000..U+FFFF, prefixes, empty string, combining marks) decide run-time values: targeted labels "
+    "const-string-compare-{if,ternary,logical,eq-bool,switch,nested}, string-compare-runtime; witnesses corpus/C01/const_string_order.c01.req.")
+PROPS["C13"]["level_note"] += (" Overload sets: verification classes VOverBase/VOver (harness/metatypes/verif_overloads.json) carry default-argument chains of "
+    "1-3, chains with a gap, forks in a leading / trailing argument type, arity-only and last-step breaks, signal vs slot / method of one name, "
+    "slot-only names and names declared in base and derived class; every name is judged against the specification (oracle c13-overload: most-derived "
+    "declaring class; increasing-arity prefix chain of equal kind and return type => longest member if it is a signal, else 'cannot bind to overloaded "
+    "signal' / 'not a signal') and compared with Model.Callback.uniquifyMethods (c13-body overload); real Qt classes (QSpinBox/QDoubleSpinBox.valueChanged, "
+    "QComboBox.activated/highlighted/currentIndexChanged ambiguous; clicked/toggled/triggered/textChanged accepted) in the stream and in "
+    "corpus/C13/overloaded_qt_signals.c13.req; handlers with folded / run-time string comparisons (label const-string-compare).")
+PROPS["C13"]["trusted_base"] = list(PROPS["C13"]["trusted_base"]) + ["the Rust statement of the overload rule (`spec_resolve` in c13.rs) and the overload metatypes file"]
